@@ -286,6 +286,20 @@ func scriptedHook(cfg scfg) func(name string, req map[string]interface{}) vs.Hoo
 		if mode == "resync" {
 			resp["resyncAfterSeconds"] = int64(30)
 		}
+		// spec.nullAt: the answer lists a null entry among its children (legal; it is skipped, the order of the others stays)
+		if at, ok := objMap(parent, "spec")["nullAt"]; ok {
+			if kids, ok := resp["children"].([]interface{}); ok {
+				pos := int(objInt(parent, "spec", "nullAt"))
+				_ = at
+				if pos > len(kids) {
+					pos = len(kids)
+				}
+				withNull := append([]interface{}{}, kids[:pos]...)
+				withNull = append(withNull, nil)
+				withNull = append(withNull, kids[pos:]...)
+				resp["children"] = withNull
+			}
+		}
 		b, _ := json.Marshal(resp)
 		return vs.HookAnswer{Code: 200, Body: b}
 	}
